@@ -285,6 +285,13 @@ func (c *Checker) checkPattern(node ast.PatternNode, matchedType types.Type) (re
 		return c.checkScopedMacroCallNodeForPattern(n, matchedType)
 	case *ast.UnhygienicNode:
 		return c.checkPatternUnhygienicNode(n, matchedType)
+	case *ast.UnquoteNode:
+		c.addFailure(
+			"unquote expressions cannot appear in this context",
+			n.Location(),
+		)
+		n.SetType(types.Untyped{})
+		return n, types.Untyped{}
 	default:
 		panic(fmt.Sprintf("invalid pattern node %T", node))
 	}
